@@ -17,7 +17,8 @@ def schema():
         'xs': T.ArrayType('float64[]', subtype=T.FLOAT64), 'fx': T.ArrayType('float64[3]', subtype=T.FLOAT64, length=3),
         'fz': T.ArrayType('float64[0]', subtype=T.FLOAT64, length=0), 'f1': T.ArrayType('float64[1]', subtype=T.FLOAT64, length=1),
         'm': inner, 'ms': T.ArrayType('Inner[]', subtype=inner), 'mf': T.ArrayType('Inner[2]', subtype=inner, length=2),
-        'os': T.ArrayType('Other[]', subtype=other), 'bs': T.ArrayType('bool[]', subtype=T.BOOLEANS)},
+        'os': T.ArrayType('Other[]', subtype=other), 'bs': T.ArrayType('bool[]', subtype=T.BOOLEANS),
+        'gg': T.ArrayType('Inner[][]', subtype=T.ArrayType('Inner[]', subtype=inner))},
         constants={'K': (T.UINT8, 7)})
     return {'t': m, 'u': m, 'w': other}
 
